@@ -44,6 +44,9 @@ type configInSensor struct {
 	Hwmon *int `json:"hwmon,omitempty"` // index (key omitted when 0 and HwNoIdx)
 	File  bool `json:"file,omitempty"`
 	Cmd   bool `json:"cmd,omitempty"`
+	// EmptyStr: the mandatory string of the block is present but empty (file `path: ""`, cmd `exec: ""`);
+	// the validator does not look at it, so the decoded shape (block present) is the same
+	EmptyStr bool `json:"emptyStr,omitempty"`
 }
 type configInLinear struct {
 	Sensor    int          `json:"sensor"` // 0 = no sensor key
@@ -102,6 +105,9 @@ type configIn struct {
 	Fans    []configInFan    `json:"fans"`
 	PermOK  bool       `json:"permOk"`
 	Globals bool       `json:"globals,omitempty"` // render the documented top-level options as well
+	// EmptyQuoted: an absent id / sensor / curve reference (0) is written as `key: ""` instead of omitting the key;
+	// hwmon fans get `platform: ""`
+	EmptyQuoted bool `json:"emptyQuoted,omitempty"`
 }
 
 // ---------------------------------------------------------------- decoded (semantic) AST = the Coq type Model.Config.config
@@ -457,12 +463,16 @@ func configRenderYaml(in configIn, work string) string {
 				w("    "+format, a...)
 			}
 		}
-		if f.Id != 0 {
+		if f.Id != 0 || in.EmptyQuoted {
 			item("id: %s\n", configIdStr("f", f.Id))
 		}
 		if f.Hwmon != nil {
 			item("hwmon:\n")
-			w("      platform: nct6798\n")
+			if in.EmptyQuoted {
+				w("      platform: \"\"\n")
+			} else {
+				w("      platform: nct6798\n")
+			}
 			if f.Hwmon.Index != 0 {
 				w("      index: %d\n", f.Hwmon.Index)
 			}
@@ -509,7 +519,7 @@ func configRenderYaml(in configIn, work string) string {
 		if f.Extras&1 != 0 {
 			item("neverStop: true\n")
 		}
-		if f.Curve != 0 {
+		if f.Curve != 0 || in.EmptyQuoted {
 			item("curve: %s\n", configIdStr("c", f.Curve))
 		}
 		switch f.Alg.Form {
@@ -568,7 +578,7 @@ func configRenderYaml(in configIn, work string) string {
 				w("    "+format, a...)
 			}
 		}
-		if s.Id != 0 {
+		if s.Id != 0 || in.EmptyQuoted {
 			item("id: %s\n", configIdStr("s", s.Id))
 		}
 		if s.Hwmon != nil {
@@ -577,10 +587,14 @@ func configRenderYaml(in configIn, work string) string {
 				w("      index: %d\n", *s.Hwmon)
 			}
 		}
-		if s.File {
+		if s.File && s.EmptyStr {
+			item("file:\n      path: \"\"\n")
+		} else if s.File {
 			item("file:\n      path: %s\n", filepath.Join(work, fmt.Sprintf("sensor%d", i)))
 		}
-		if s.Cmd {
+		if s.Cmd && s.EmptyStr {
+			item("cmd:\n      exec: \"\"\n      args: [ '%s' ]\n", filepath.Join(work, fmt.Sprintf("sensor%d", i)))
+		} else if s.Cmd {
 			item("cmd:\n      exec: /bin/cat\n      args: [ '%s' ]\n", filepath.Join(work, fmt.Sprintf("sensor%d", i)))
 		}
 		if first {
@@ -602,16 +616,16 @@ func configRenderYaml(in configIn, work string) string {
 				w("    "+format, a...)
 			}
 		}
-		if c.Id != 0 {
+		if c.Id != 0 || in.EmptyQuoted {
 			item("id: %s\n", configIdStr("c", c.Id))
 		}
 		if c.Linear != nil {
 			l := c.Linear
-			if l.Sensor == 0 && l.Steps == nil && l.Min == 0 && l.Max == 0 {
+			if l.Sensor == 0 && l.Steps == nil && l.Min == 0 && l.Max == 0 && !in.EmptyQuoted {
 				item("linear: {}\n")
 			} else {
 				item("linear:\n")
-				if l.Sensor != 0 {
+				if l.Sensor != 0 || in.EmptyQuoted {
 					w("      sensor: %s\n", configIdStr("s", l.Sensor))
 				}
 				if l.Min != 0 || l.Max != 0 {
@@ -639,7 +653,7 @@ func configRenderYaml(in configIn, work string) string {
 		}
 		if c.Pid != nil {
 			item("pid:\n")
-			if c.Pid.Sensor != 0 {
+			if c.Pid.Sensor != 0 || in.EmptyQuoted {
 				w("      sensor: %s\n", configIdStr("s", c.Pid.Sensor))
 			}
 			w("      setPoint: %s\n      p: %s\n      i: %s\n      d: %s\n", c.Pid.Set, c.Pid.K[0], c.Pid.K[1], c.Pid.K[2])
@@ -1800,6 +1814,55 @@ func init() {
 					}
 					emit(in, "cross-kind", "xref="+[]string{"linear.sensor", "pid.sensor", "member", "fan.curve"}[site]+"/"+[]string{"none", "sensor", "curve", "both"}[have])
 				}
+			}
+		}
+		// (b5) empty mandatory strings: file sensor `path: ""`, cmd sensor `exec: ""` (the validator does not
+		// look at them: accepted, and the accepted configuration must still instantiate and evaluate), and the
+		// explicit-empty spellings `id: ""`, `sensor: ""`, `curve: ""`, `curves: [""]`, hwmon fan `platform: ""`
+		// combined with each planted deviation that empties an id / reference (file fan `path: ""` and cmd fan
+		// `exec: ""` are the deviations file-nopath / cmd-getexec / cmd-setexec)
+		ereps := 3
+		if !ctx.Quick() {
+			ereps = 20
+		}
+		for rep := 0; rep < ereps; rep++ {
+			for variant := 0; variant < 14; variant++ {
+				in := configGenValid(rng, rng.Range(1, 3), rng.Range(1, 2))
+				tag := ""
+				switch variant {
+				case 0, 1, 2, 3:
+					// sensors with an empty path / exec, referenced by linear and pid curves
+					for i := range in.Sensors {
+						s := &in.Sensors[i]
+						if variant%2 == 0 {
+							s.Hwmon, s.File, s.Cmd, s.EmptyStr = nil, true, false, true
+						} else {
+							s.Hwmon, s.File, s.Cmd, s.EmptyStr = nil, false, true, true
+						}
+					}
+					tag = []string{"sensor-path-empty", "sensor-exec-empty"}[variant%2]
+					if variant >= 2 {
+						sid := in.Sensors[0].Id
+						in.Curves = append(in.Curves, configInCurve{Id: 301, Pid: &configInPidC{Sensor: sid, Set: "50", K: configPidTexts[rng.Intn(2)]}})
+						in.Curves = append(in.Curves, configInCurve{Id: 302, Linear: &configInLinear{Sensor: sid, Min: 30, Max: 70}})
+						in.Curves = append(in.Curves, configInCurve{Id: 303, Func: &configInFunc{Type: configFnTypes[rng.Intn(6)], Curves: []int{301, 302}}})
+						in.Fans = append(in.Fans, configGenFan(rng, 301, []int{301, 302, 303}[rng.Intn(3)]))
+					}
+				case 4:
+					in.EmptyQuoted = true
+					tag = "quoted-valid"
+				default:
+					in.EmptyQuoted = true
+					k := []int{4, 12, 15, 24, 45, 46, 10, 11, 34}[variant-5]
+					tag = "quoted+" + configApplyDefect(rng, &in, k)
+					if variant == 11 {
+						if c := configFindFunc(&in); c != nil {
+							c.Func.Curves = append(c.Func.Curves, 0) // curves: [..., ""]
+							tag = "quoted+member-empty"
+						}
+					}
+				}
+				emit(in, "empty-strings", "empty="+tag)
 			}
 		}
 		// (c) curve graphs with up to 8 nodes: random DAGs, a cycle of every length 1..8 embedded, dangling references
